@@ -57,6 +57,11 @@ class Term:
 
 
 @dataclass(frozen=True)
+class Ref:  # a reference to a mutable list (lists are shared by reference: `x = self._stack; x.pop()` mutates both)
+    cid: int
+
+
+@dataclass(frozen=True)
 class Obj:
     oid: int
     cls: str
@@ -236,9 +241,11 @@ class Env:
         self.nil: frozenset = frozenset()  # list terms known to be empty
         self.some: dict = {}  # option term -> unwrapped term
         self.none: frozenset = frozenset()
+        self.cells: dict = {}  # list reference -> current value (a Lean term)
 
     def copy(self) -> "Env":
         e = Env()
+        e.cells = dict(self.cells)
         e.locals = dict(self.locals)
         e.heap = {k: dict(v) for k, v in self.heap.items()}
         e.cons = dict(self.cons)
@@ -255,6 +262,11 @@ class Env:
     def set_slot(self, oid: int, attr: str, v) -> "Env":
         e = self.copy()
         e.heap[oid][attr] = v
+        return e
+
+    def set_cell(self, cid: int, v) -> "Env":
+        e = self.copy()
+        e.cells[cid] = v
         return e
 
 
@@ -326,6 +338,7 @@ class Tr:
         self.raises = raises or {}  # exception class -> Lean term (mode 'except')
         self.n = 0
         self.oid = 0
+        self.cid = 0
         self.depth = 0
         self.boundaries: dict = {}  # (class, method) -> handler: call of an already translated function instead of inlining
         self.len_of: dict = {}  # `<list>.length` term -> the list (so that `len(x) == 0` is an emptiness test)
@@ -342,6 +355,14 @@ class Tr:
         e = env.copy()
         e.heap[self.oid] = dict(slots)
         return Obj(self.oid, cls), e
+
+    def new_cell(self, env: Env, v):
+        self.cid += 1
+        return Ref(self.cid), env.set_cell(self.cid, v)
+
+    @staticmethod
+    def deref(v, env: Env):
+        return env.cells[v.cid] if isinstance(v, Ref) else v
 
     def ok(self, s: str) -> str:
         return s if self.mode == "pure" else (f"some {atom(s)}" if self.mode == "option" else f".ok {atom(s)}")
@@ -387,6 +408,10 @@ class Tr:
 
     # ------------------------------------------------------------------------------------------ coercion to Lean
     def want(self, v, ty, env: Env = None) -> str:
+        if isinstance(v, Ref):
+            if env is None:
+                raise Unsupported("list reference used without its environment")
+            v = env.cells[v.cid]
         if isinstance(v, Term):
             if v.ty == ty or (is_list(v.ty) and is_list(ty) and v.ty[1] == ty[1] and v.ty[2] == ty[2]):
                 return v.term
@@ -454,9 +479,10 @@ class Tr:
                         f"{atom(self.want(hi, ('opt', 'Rat'), env))})")
             if ty == "Step" and v.cls == "MetricFetcher":
                 kw = dict(v.kwargs)
-                if len(v.args) < 1 or "nones_are_zeros" not in kw:
+                fname = v.args[0] if v.args else kw.get("name")
+                if fname is None or "nones_are_zeros" not in kw:
                     raise Unsupported("MetricFetcher(...) arguments")
-                return f"(Formula.Step.metric {atom(self.want(v.args[0], 'Nat', env))} {atom(self.want(kw['nones_are_zeros'], 'Bool', env))})"
+                return f"(Formula.Step.metric {atom(self.want(fname, 'Nat', env))} {atom(self.want(kw['nones_are_zeros'], 'Bool', env))})"
             if ty == "RawTok" and v.cls == "Token" and len(v.args) + len(v.kwargs) == 2:
                 kw = dict(v.kwargs)
                 typ = v.args[0] if v.args else kw.get("type")
@@ -468,6 +494,8 @@ class Tr:
             raise Unsupported(f"instance of {v.cls} used at type {ty}")
         if isinstance(v, Kind):
             for _n, pv in v.payload:
+                if isinstance(pv, Ref) and env is not None:
+                    pv = env.cells[pv.cid]
                 if isinstance(pv, Term) and pv.ty == ty:
                     return pv.term
             raise Unsupported(f"operand of classes {sorted(v.classes)} used at type {ty}")
@@ -619,7 +647,7 @@ class Tr:
             if isinstance(b, Qty) and name in ("isnan", "isinf"):
                 return k(("qty-attr", b, name), env)
             raise Unsupported(f"attribute {name} of {b} (a value that may be None / of unknown kind)")
-        if isinstance(b, Term) and is_list(b.ty) or isinstance(b, Const) and isinstance(b.v, (dict, PrecTable, tuple)):
+        if isinstance(b, Ref) or isinstance(b, Term) and is_list(b.ty) or isinstance(b, Const) and isinstance(b.v, (dict, PrecTable, tuple)):
             return k(("bound", b, name, src.value if isinstance(src, ast.Attribute) else None), env)
         if isinstance(b, Inst):
             kw = dict(b.kwargs)
@@ -640,6 +668,7 @@ class Tr:
         raise Unsupported(f"attribute {ast.unparse(src)[:60]} of {type(b).__name__}")
 
     def index(self, b, i, env: Env, k, src):
+        b = self.deref(b, env)
         if isinstance(b, Const) and isinstance(b.v, PrecTable):
             if isinstance(i, Const) and i.v in b.v.table:
                 return k(Term(f"(Extracted.Formula.prec Formula.Op.{OPS[i.v]})", "Nat"), env)
@@ -672,12 +701,22 @@ class Tr:
     def loc(self, e: ast.expr, env: Env, mod: Module, k):
         """k(getter value, setter(env, newval) -> env, env)."""
         e = e.value if isinstance(e, ast.Await) else e
+        if isinstance(e, ast.Name) and e.id in env.locals and isinstance(env.locals[e.id], Ref):
+            r = env.locals[e.id]
+            return k(env.cells[r.cid], lambda en, v: en.set_cell(r.cid, v), env)
         if isinstance(e, ast.Name) and e.id in env.locals:
             return k(env.locals[e.id], lambda en, v: en.bind(e.id, v), env)
         if isinstance(e, ast.Attribute):
             def got(b, e2):
                 if isinstance(b, Obj) and e.attr in e2.heap[b.oid]:
-                    return k(e2.heap[b.oid][e.attr], lambda en, v: en.set_slot(b.oid, e.attr, v), e2)
+                    cur = e2.heap[b.oid][e.attr]
+                    if isinstance(cur, Ref):
+                        return k(e2.cells[cur.cid], lambda en, v: en.set_cell(cur.cid, v), e2)
+                    return k(cur, lambda en, v: en.set_slot(b.oid, e.attr, v), e2)
+                if isinstance(b, Kind):
+                    for n_, pv in b.payload:
+                        if n_ == e.attr and isinstance(pv, Ref):
+                            return k(e2.cells[pv.cid], lambda en, v: en.set_cell(pv.cid, v), e2)
                 raise Unsupported(f"mutation of {ast.unparse(e)[:60]}")
             return self.ev(e.value, env, mod, got)
         raise Unsupported(f"mutation of {ast.unparse(e)[:60]}")
@@ -714,13 +753,15 @@ class Tr:
         return lst.ty[1]
 
     def mutate(self, cur, setter, meth: str, args: list, env: Env, k, src):
+        args = [self.deref(a, env) for a in args]
         if isinstance(cur, Term) and cur.ty == "Fetchers" and meth == "setdefault" and len(args) == 2:
             # dict.setdefault(name, MetricFetcher(name, …, nones_are_zeros=z)); a fetcher is identified by (name, z)
             f = args[1]
-            if not (isinstance(f, Inst) and f.cls == "MetricFetcher" and f.args and "nones_are_zeros" in dict(f.kwargs)):
+            fname = (f.args[0] if f.args else dict(f.kwargs).get("name")) if isinstance(f, Inst) else None
+            if not (isinstance(f, Inst) and f.cls == "MetricFetcher" and fname is not None and "nones_are_zeros" in dict(f.kwargs)):
                 raise Unsupported(f"{ast.unparse(src)[:60]}: the default is not a new MetricFetcher")
             n = self.want(args[0], "Nat", env)
-            if self.want(f.args[0], "Nat", env) != n:
+            if self.want(fname, "Nat", env) != n:
                 raise Unsupported("the fetcher is registered under a different name than its own")
             z = self.want(dict(f.kwargs)["nones_are_zeros"], "Bool", env)
             zv = self.fresh("z")
@@ -856,8 +897,13 @@ class Tr:
             if not isinstance(args[0], Const):
                 raise Unsupported(f"dict lookup with a symbolic key: {ast.unparse(src)[:60]}")
             return k(recv.v.get(args[0].v, args[1] if len(args) == 2 else Const(None)), env)
+        if isinstance(recv, Ref) and name == "copy" and not args:
+            r, e2 = self.new_cell(env, env.cells[recv.cid])
+            return k(r, e2)
+        recv = self.deref(recv, env)
         if isinstance(recv, Term) and is_list(recv.ty) and name == "copy" and not args:
-            return k(recv, env)
+            r, e2 = self.new_cell(env, recv)
+            return k(r, e2)
         if isinstance(recv, Term) and recv.ty == "Char" and name == "isdigit" and not args:
             return k(Term(f"{atom(recv.term)}.isDigit", "Bool"), env)
         if isinstance(recv, Term) and recv.ty == ("list", "Char", "stream") and name == "peek" and not args:
@@ -875,6 +921,7 @@ class Tr:
         raise Unsupported(f"call {ast.unparse(src)[:60]}")
 
     def prim(self, name: str, args: list, kwargs: dict, env: Env, k, src):
+        args = [self.deref(a, env) if not (name == "isinstance") else a for a in args]
         if kwargs:
             raise Unsupported(f"keyword arguments in {ast.unparse(src)[:60]}")
         if name == "repr" and len(args) == 1:
@@ -949,6 +996,7 @@ class Tr:
         return self.ev(t, env, mod, lambda v, e2: self.truth(v, e2, T, E, t))
 
     def truth(self, v, env: Env, T, E, src):
+        v = self.deref(v, env)
         if isinstance(v, Const):
             if isinstance(v.v, float) and v.v != v.v:
                 return T(env)
@@ -962,6 +1010,8 @@ class Tr:
                 return If(f"{v.term} = true", T(env), E(env))
             if v.ty == "Char":
                 return T(env)  # a one-character string is truthy
+            if is_opt(v.ty) and v.ty[1] == "Char":
+                return self.opt_test(v, env, T, E)
             if is_list(v.ty):
                 if v.term in env.cons:
                     return T(env)
@@ -975,6 +1025,9 @@ class Tr:
         raise Unsupported(f"truth value of {ast.unparse(src)[:60]}")
 
     def compare(self, op, a, b, env: Env, T, E, src):
+        if isinstance(a, Ref) and isinstance(b, Ref) and isinstance(op, (ast.Is, ast.IsNot)):
+            return (T if (a == b) == isinstance(op, ast.Is) else E)(env)
+        a, b = self.deref(a, env), self.deref(b, env)
         pos, neg = (T, E) if isinstance(op, (ast.Eq, ast.Is, ast.In, ast.Lt, ast.LtE, ast.Gt, ast.GtE)) else (E, T)
         # `len(x) == 0` / `!= 0` / `> 0` / `0 < len(x)`: an emptiness test (the list is known non-empty on the other branch)
         for x, y, flip in ((a, b, False), (b, a, True)):
@@ -1094,6 +1147,8 @@ class Tr:
         return go(v, env)
 
     def assign(self, tgt, v, env: Env, mod: Module, go):
+        if isinstance(v, Term) and is_list(v.ty) and v.ty[1] != "Char":
+            v, env = self.new_cell(env, v)  # a list that is not yet shared: from now on it is (by reference)
         if isinstance(tgt, ast.Name):
             return self.materialize(tgt.id, v, env, lambda w, e: go(e.bind(tgt.id, w)))
         if isinstance(tgt, ast.Attribute):
@@ -1151,22 +1206,58 @@ class Tr:
                 return "Bool"
             if isinstance(v.v, str):
                 return ("list", "Char", "seq")
+            if v.v is None:
+                return "NoneType"
         return None
 
     def locations(self, env: Env) -> dict:
-        out = {("local", n): v for n, v in env.locals.items()}
+        out = {("local", n): v for n, v in env.locals.items() if not isinstance(v, Ref)}
         for oid, slots in env.heap.items():
             for a, v in slots.items():
-                out[("slot", oid, a)] = v
+                if not isinstance(v, Ref):
+                    out[("slot", oid, a)] = v
+        names = self.cell_names(env)
+        for cid, v in env.cells.items():
+            out[("cell", cid, names.get(cid, f"list{cid}"))] = v
         return out
 
     @staticmethod
+    def cell_names(env: Env) -> dict:
+        """A stable, readable name per list cell: the slot (or local) that refers to it."""
+        names: dict = {}
+        for n, v in env.locals.items():
+            if isinstance(v, Ref):
+                names.setdefault(v.cid, n)
+        for _oid, slots in env.heap.items():
+            for a, v in slots.items():
+                if isinstance(v, Ref):
+                    names[v.cid] = a
+        return names
+
+    @staticmethod
     def set_loc(env: Env, loc, v) -> Env:
+        if loc[0] == "cell":
+            return env.set_cell(loc[1], v)
         return env.bind(loc[1], v) if loc[0] == "local" else env.set_slot(loc[1], loc[2], v)
 
     def loop(self, s, rest: list, env: Env, mod: Module, K: Kont, fn):
+        brk_flag = False
         if s.orelse:
-            raise Unsupported("loop with else clause")
+            # `else:` runs when the loop is left normally; without a `break` in the body that is every time it is left
+            def has_break(stmts) -> bool:
+                for st in stmts:
+                    if isinstance(st, ast.Break):
+                        return True
+                    if isinstance(st, (ast.For, ast.While, ast.AsyncFor, ast.FunctionDef)):
+                        continue
+                    for fld in ("body", "orelse", "cases"):
+                        sub = getattr(st, fld, None)
+                        if sub and has_break([c for x in sub for c in (x.body if isinstance(x, ast.match_case) else [x])]):
+                            return True
+                return False
+            brk_flag = has_break(s.body)
+            if not brk_flag:
+                rest = list(s.orelse) + list(rest)
         # `for x in <list>`: a hidden iterator variable; `for c in <stream slot>`: the slot itself is consumed
         it_loc = None
         if isinstance(s, ast.For):
@@ -1175,10 +1266,13 @@ class Tr:
             if len(holder) != 1:
                 raise Unsupported("loop iterable with branches")
             itv, env = holder[0]
+            itref = itv if isinstance(itv, Ref) else None
+            itv = self.deref(itv, env)
             if not (isinstance(itv, Term) and is_list(itv.ty)):
                 raise Unsupported(f"iteration over {ast.unparse(s.iter)[:50]}")
             if itv.ty[2] == "stream":
-                locs = [l for l, v in self.locations(env).items() if v == itv]
+                locs = [l for l in self.locations(env) if itref is not None and l[0] == "cell" and l[1] == itref.cid] or \
+                    [l for l, v in self.locations(env).items() if v == itv]
                 if len(locs) != 1:
                     raise Unsupported("iteration over a stream that is not held by exactly one slot")
                 it_loc = locs[0]
@@ -1190,6 +1284,11 @@ class Tr:
                 env = env.bind(it_loc[1], itv)
 
         entry = self.locations(env)
+        # locals first assigned inside the loop (loop target, walrus, …) and read after it keep their last value
+        stored = {x.id for x in ast.walk(s) if isinstance(x, ast.Name) and isinstance(x.ctx, ast.Store)}
+        after_loads = {x.id for st in list(rest) + list(s.orelse) for x in ast.walk(st)
+                       if isinstance(x, ast.Name) and isinstance(x.ctx, ast.Load)}
+        live_new = {("local", n) for n in stored & after_loads if ("local", n) not in entry and n not in env.locals}
         has_return = any(isinstance(x, ast.Return) for st in s.body for x in ast.walk(st))
         # `return` (None) inside the last loop of an inlined function that then falls off its end == `break`
         ret_is_break = has_return and not rest and isinstance(K, FnK) and all(
@@ -1220,7 +1319,7 @@ class Tr:
         class Rec(Kont):
             def note(self_, e: Env):
                 for l, v in self.locations(e).items():
-                    if l in entry and entry[l] != v:
+                    if (l in entry and entry[l] != v) or l in live_new:
                         modified.setdefault(l, []).append(v)
                 return Leaf("")
             end = cont = brk = note
@@ -1235,25 +1334,45 @@ class Tr:
 
         state = []
         for l, vals in modified.items():
-            tys = {self.ty_of(v) for v in vals + [entry[l]]}
+            tys = {self.ty_of(v) for v in vals + ([entry[l]] if l in entry else [])}
             tys.discard(None) if len(tys) > 1 else None
-            if len(tys) != 1 or None in tys:
+            if "NoneType" in tys and len(tys) == 2:
+                tys = {("opt", next(t for t in tys if t != "NoneType"))}
+            if len(tys) != 1 or None in tys or "NoneType" in tys:
                 raise Unsupported(f"loop-carried variable {l} has no single Lean type ({tys})")
             state.append((l, tys.pop()))
         if not state:
             raise Unsupported("loop without loop-carried state")
-        state.sort(key=lambda x: (lty(x[1]), str(x[0][-1]) if x[0][0] == "slot" else x[0][1]))
+        state.sort(key=lambda x: (lty(x[1]), str(x[0][-1]) if x[0][0] in ("slot", "cell") else x[0][1]))
         lists = [(l, t) for l, t in state if is_list(t)]
         if not lists:
             raise Unsupported("no list among the loop-carried variables: cannot bound the number of iterations")
 
+        def dummy(t) -> str:  # the value of a variable that is not yet assigned (never read on such a path)
+            if t == "Char":
+                return "(Char.ofNat 0)"
+            if t == "Bool":
+                return "false"
+            if is_opt(t):
+                return f"(none : {lty(t)})"
+            if is_list(t):
+                return f"([] : {lty(t)})"
+            raise Unsupported(f"no placeholder for an unassigned variable of type {t}")
+
         def pack(e: Env) -> str:
-            terms = [self.want(self.locations(e)[l], t, e) for l, t in state]
+            locs = self.locations(e)
+            terms = [self.want(locs[l], t, e) if l in locs else dummy(t) for l, t in state]
             return terms[0] if len(terms) == 1 else "(" + ", ".join(terms) + ")"
 
         sty = lty(state[0][1]) if len(state) == 1 else "(" + " × ".join(lty(t) for _l, t in state) + ")"
         rty = self.ret_ty if payload else None
-        rho = sty if not payload else f"({sty} × Option {lty(rty)})"
+        extras = ([f"Option {lty(rty)}"] if payload else []) + (["Bool"] if brk_flag else [])
+        rho = sty if not extras else "(" + " × ".join([sty] + extras) + ")"
+
+        def extra(base: str, which: str) -> str:
+            names = (["ret"] if payload else []) + (["brk"] if brk_flag else [])
+            i = names.index(which)
+            return f"{base}.2" if len(names) == 1 else (f"{base}.2.1" if i == 0 else f"{base}.2.2")
 
         def proj(i: int, base: str) -> str:
             if len(state) == 1:
@@ -1273,10 +1392,11 @@ class Tr:
             e.cons, e.nil, e.some, e.none = {}, frozenset(), {}, frozenset()
             return each(0, e)
 
-        def exit_leaf(e: Env, ret=None):
+        def exit_leaf(e: Env, ret=None, broke: bool = False):
             st = pack(e)
-            if payload:
-                st = f"({st}, {ret if ret is not None else 'none'})"
+            ex = ([ret if ret is not None else "none"] if payload else []) + (["true" if broke else "false"] if brk_flag else [])
+            if ex:
+                st = "(" + ", ".join([st] + ex) + ")"
             return Leaf(self.ok(f".inr {atom(st)}"))
 
         class LK(Kont):
@@ -1285,28 +1405,34 @@ class Tr:
             cont = end
 
             def brk(self_, e):
-                return exit_leaf(e)
+                return exit_leaf(e, broke=True)
 
             def ret(self_, val, e):
                 if ret_is_break:
-                    return exit_leaf(e)
+                    return exit_leaf(e, broke=True)
                 return exit_leaf(e, f"some {atom(self.want(val, rty, e))}")
 
         step_tree = enter("s", env, lambda e: iteration(e, LK(), exit_leaf))
         init = pack(env)
         fuel = " + ".join(f"{atom(self.want(self.locations(env)[l], t, env))}.length" for l, t in lists) + " + 1"
-        exit0 = init if not payload else f"({init}, none)"
+        exit0 = init if not extras else "(" + ", ".join([init] + (["none"] if payload else []) + (["false"] if brk_flag else [])) + ")"
         r = self.fresh("r")
 
         def after(e: Env):
+            def normal(e2: Env):
+                if not brk_flag:
+                    return self.block(rest, e2, mod, K, fn)
+                return If(f"{extra(r, 'brk')} = true", self.block(rest, e2, mod, K, fn),
+                          self.block(list(s.orelse) + list(rest), e2, mod, K, fn))
+
             def cont(e2: Env):
                 if not payload:
-                    return self.block(rest, e2, mod, K, fn)
+                    return normal(e2)
                 rv = self.fresh("ret")
                 e3 = e2.copy()
-                e3.some[f"{r}.2"] = rv
-                return MatchOpt(f"{r}.2", rv, K.ret(Term(rv, rty), e3), self.block(rest, e2, mod, K, fn))
-            base = r if not payload else f"{r}.1"
+                e3.some[extra(r, "ret")] = rv
+                return MatchOpt(extra(r, "ret"), rv, K.ret(Term(rv, rty), e3), normal(e2))
+            base = r if not extras else f"{r}.1"
             e = e.copy()
             for n in [x.id for st in s.body for x in ast.walk(st) if isinstance(x, ast.Name) and isinstance(x.ctx, ast.Store)]:
                 if ("local", n) not in [l for l, _t in state] and n not in entry_names:
@@ -1410,8 +1536,10 @@ def load(repo: pathlib.Path):
 
 
 def builder_obj(tr: Tr, env: Env):
+    r1, env = tr.new_cell(env, Term("stack", STACK_OP))
+    r2, env = tr.new_cell(env, Term("steps", SEQ_STEP))
     return tr.new_obj(env, "FormulaBuilder", {
-        "_build_stack": Term("stack", STACK_OP), "_steps": Term("steps", SEQ_STEP),
+        "_build_stack": r1, "_steps": r2,
         "_metric_fetchers": Term("fetchers", "Fetchers"), "_name": Opaque("name"), "_create_method": Opaque("create")})
 
 
@@ -1506,8 +1634,9 @@ def gen_fetcher(mods, reprs) -> list:
         def done(_v, e, tr=tr, holder=holder):
             return Leaf("<unused>")
         # run the body directly (so that the mutated parameter is visible at the end)
+        sref, env = tr.new_cell(env, Term("stack", ("list", "V", "stack")))
         inner = env.copy()
-        inner.locals = {params[0]: obj, params[1]: Term("stack", ("list", "V", "stack"))}
+        inner.locals = {params[0]: obj, params[1]: sref}
 
         class EndK(Kont):
             def end(self_, e, tr=tr, p=params[1]):
@@ -1543,11 +1672,13 @@ def gen_evaluator(mods, reprs) -> list:
                                and not inits[0].value.elts and inits[0] in body):
         raise Unsupported(f"FormulaEvaluator.apply: `{stack}` is not initialised once as [] before the loop")
     self_name = m[1].args.args[0].arg
-    obj, env = tr.new_obj(Env(), "FormulaEvaluator", {"_steps": Term("steps", SEQ_STEP), "_create_method": Prim("create"),
+    steps_ref, env0 = tr.new_cell(Env(), Term("steps", SEQ_STEP))
+    obj, env = tr.new_obj(env0, "FormulaEvaluator", {"_steps": steps_ref, "_create_method": Prim("create"),
                                                        "_name": Opaque("name"), "_metric_fetchers": Opaque("fetchers"),
                                                        "_first_run": Opaque("first_run")})
     empty = Term("([] : List Formula.V)", ("list", "V", "stack"))
-    env = env.bind(self_name, obj).bind(stack, empty)
+    eref, env = tr.new_cell(env, empty)
+    env = env.bind(self_name, obj).bind(stack, eref)
     env.nil = env.nil | {empty.term}
     for st in body[:loops[0]]:  # locals computed before (the timestamp): opaque
         for x in ast.walk(st):
@@ -1589,9 +1720,21 @@ def gen_ho(mods, reprs) -> list:
     def run(meth: str, args: list, init: bool = False):
         tr = Tr(mods, reprs, mode="option")
         slots = {"_create_method": Opaque("create")}
+        env = Env()
         if not init:
-            slots["_steps"] = Term("steps", SEQ_HTOK)
-        obj, env = tr.new_obj(Env(), "HigherOrderFormulaBuilder", slots)
+            slots["_steps"], env = tr.new_cell(env, Term("steps", SEQ_HTOK))
+        obj, env = tr.new_obj(env, "HigherOrderFormulaBuilder", slots)
+        fixed = []
+        for a in args:  # the other builder's deque is a shared list as well
+            if isinstance(a, Kind) and any(isinstance(pv, Term) and is_list(pv.ty) for _n, pv in a.payload):
+                pl = []
+                for n_, pv in a.payload:
+                    if isinstance(pv, Term) and is_list(pv.ty):
+                        pv, env = tr.new_cell(env, pv)
+                    pl.append((n_, pv))
+                a = Kind(a.classes, tuple(pl))
+            fixed.append(a)
+        args = fixed
 
         def done(v, e):
             o = obj if init else v
@@ -1637,7 +1780,8 @@ def gen_tokenizer(mods, reprs) -> list:
         tr = Tr(mods, reprs, mode="except", raises=raises)
         tr.exc_ty = "TokErr"
         tr.ret_ty = ret_ty
-        obj, env = tr.new_obj(Env(), "Tokenizer", {"_formula": Term("rest", STREAM)})
+        fref, env = tr.new_cell(Env(), Term("rest", STREAM))
+        obj, env = tr.new_obj(env, "Tokenizer", {"_formula": fref})
         return tr, obj, env
 
     boundary = None
@@ -1657,9 +1801,10 @@ def gen_tokenizer(mods, reprs) -> list:
             if args or kwargs or not isinstance(fv.self_val, Obj):
                 raise Unsupported(f"call of {name}")
             o = fv.self_val
-            cur = env.heap[o.oid]["_formula"]
+            ref = env.heap[o.oid]["_formula"]
+            cur = env.cells[ref.cid]
             r = tr2.fresh("r")
-            e2 = env.set_slot(o.oid, "_formula", Term(f"{r}.2", STREAM))
+            e2 = env.set_cell(ref.cid, Term(f"{r}.2", STREAM))
             return Bind(f"readUnsignedInt {atom(cur.term)}", r, k(Term(f"{r}.1", SEQ_CHAR), e2), "except")
 
     tr2, obj2, env2 = mk("RawTok")
